@@ -306,6 +306,14 @@ class FloatLiteral(Literal[float]):
     def __init__(self, token: TokenT, value: float):
         super().__init__(token, value)
 
+    def __str__(self) -> str:
+        rv = repr(self.value)
+        mantissa, e, exponent = rv.partition("e")
+        if e and "." not in mantissa:
+            # `1e+16` would be read back as an integer literal.
+            return f"{mantissa}.0e{exponent}"
+        return rv
+
     def __eq__(self, other: object) -> bool:
         return isinstance(other, FloatLiteral) and self.value == other.value
 
